@@ -152,8 +152,15 @@ CHECKS["C17"] = {
             "complete, strictly valid frame carrying the bytes accepted since the last Reset with the descriptor the options "
             "imply (also after Reset), writes after Close produce no output, a second Close produces none, Flush leaves a decodable "
             "prefix, Read after the end returns io.EOF with zero source bytes consumed, Reset makes the object behave as new, and no "
-            "call hangs, panics or writes without bound.",
-    "design_ref": "DESIGN.md section 5 (C17)",
+            "call hangs, panics or writes without bound. The trace specifications also bind the lifecycle state the code reports "
+            "after every call (verif accessor) to the model's. \"Reset makes the object indistinguishable from a new one\" is in "
+            "addition checked differentially, without a model of the expected results: the calls after the last Reset of a Reader "
+            "sequence give what the same calls give on a new Reader (8000 comparisons in quick); a Reader that read or abandoned a "
+            "frame of another kind (checksums, legacy, block size, dependent blocks valid and invalid, other concurrency) reads the "
+            "next frame as a new Reader does; a Writer Reset and re-configured (legacy on/off, block size, size, checksums) writes "
+            "byte for byte what a new Writer with those options writes; lives that met a transient sink failure are followed by a "
+            "clean life.",
+    "design_ref": "DESIGN.md section 5 (C17), 12.9",
     "note": "Misuse not named by the property (Apply after writing, ReadFrom after Write, WriteTo after a partial Read) is modelled as "
             "the code behaves (error, then error state); only hang/panic/lost or duplicated data would be rejected there.",
 }
@@ -219,7 +226,8 @@ CHECKS["C16"] = {
             "fall-back), through Read buffer sequences and WriteTo. The trace must show the model's window length after every block "
             "and deliver exactly the content; tiny plans are decoded by TLC itself, which also validates the encoder.",
     "design_ref": "DESIGN.md section 5 (C16)",
-    "note": "Supplement: Apalache discharges the inductive window invariant (ReaderWindowInd.tla) for every block-size sequence with the real constants.",
+    "note": "Supplement: Apalache discharges the inductive window invariant (ReaderWindowInd.tla) for every block-size sequence with the real constants; "
+            "a frame of 1026 dependent 4 MiB blocks (4 GiB + 8 MiB) is generated on the fly and decoded (the Reader's 32-bit counters wrap).",
 }
 
 CHECKS["C18"] = {
